@@ -493,6 +493,7 @@ public:
     }
     template <typename Task>
     bool check_for_demand(Task& t) {
+        __TBB_VERIF_POINT(vp_part_auto_demand, &t, 0);
         if (tree_node::is_peer_stolen(t)) {
             my_max_depth += __TBB_DEMAND_DEPTH_ADD;
             return true;
